@@ -2336,6 +2336,18 @@ emit_default_string_value(arg_t *arg, asn1p_value_t *v) {
 	}
 }
 
+/* The default value as a part of a C identifier: "-5" is not one. */
+static const char *
+dfl_value_id(asn1c_integer_t value) {
+	static char buf[64];
+	const char *s = asn1p_itoa(value);
+	if(*s == '-')
+		snprintf(buf, sizeof(buf), "minus_%s", s + 1);
+	else
+		snprintf(buf, sizeof(buf), "%s", s);
+	return buf;
+}
+
 static int
 try_inline_default(arg_t *arg, asn1p_expr_t *expr, int out) {
 	int save_target = arg->target->target;
@@ -2361,13 +2373,13 @@ try_inline_default(arg_t *arg, asn1p_expr_t *expr, int out) {
             if(C99_MODE) OUT(".default_value_cmp = ");
 			OUT("&asn_DFL_%d_cmp_%s,",
 				expr->_type_unique_index,
-				asn1p_itoa(expr->marker.default_value->value.v_integer));
+				dfl_value_id(expr->marker.default_value->value.v_integer));
             OUT("\t/* Compare DEFAULT %s */\n",
 				asn1p_itoa(expr->marker.default_value->value.v_integer));
             if(C99_MODE) OUT(".default_value_set = ");
 			OUT("&asn_DFL_%d_set_%s,",
 				expr->_type_unique_index,
-				asn1p_itoa(expr->marker.default_value->value.v_integer));
+				dfl_value_id(expr->marker.default_value->value.v_integer));
             OUT("\t/* Set DEFAULT %s */\n",
 				asn1p_itoa(expr->marker.default_value->value.v_integer));
 			return 1;
@@ -2376,7 +2388,7 @@ try_inline_default(arg_t *arg, asn1p_expr_t *expr, int out) {
 
 		OUT("static int asn_DFL_%d_cmp_%s(const void *sptr) {\n",
 			expr->_type_unique_index,
-			asn1p_itoa(expr->marker.default_value->value.v_integer));
+			dfl_value_id(expr->marker.default_value->value.v_integer));
 		INDENT(+1);
 		OUT("const %s *st = sptr;\n", asn1c_type_name(arg, expr, TNF_CTYPE));
 		OUT("\n");
@@ -2405,7 +2417,7 @@ try_inline_default(arg_t *arg, asn1p_expr_t *expr, int out) {
 
 		OUT("static int asn_DFL_%d_set_%s(void **sptr) {\n",
 			expr->_type_unique_index,
-			asn1p_itoa(expr->marker.default_value->value.v_integer));
+			dfl_value_id(expr->marker.default_value->value.v_integer));
 		INDENT(+1);
 		OUT("%s *st = *sptr;\n", asn1c_type_name(arg, expr, TNF_CTYPE));
 		OUT("\n");
